@@ -100,8 +100,9 @@ PROPERTIES = {
              "are modelled as process-wide singletons, so a shared default fails).",
              "Sufficient condition for the 2-safety statement: equivalence is up to what the contracts observe (PDUs, indications, "
              "filestore calls, public state). " + ENV,
-             "Dest: _reset_internal, __idle_fsm, _handle_waiting_for_finished_ack, _handle_finished_pdu_sent, state_machine. Source: "
-             "_reset_internal, _notice_of_completion, state_machine (invariant S9).", [STUBS, ENV], [STUBS]),
+             "Dest: __init__ (base case: the constructor establishes the invariant and the fresh state), _reset_internal, __idle_fsm, "
+             "_handle_waiting_for_finished_ack, _handle_finished_pdu_sent, state_machine. Source: __init__, _reset_internal, "
+             "_notice_of_completion, state_machine (invariant S9).", [STUBS, ENV], [STUBS]),
     "C12": P("other",
              "cancel_request of both handlers: returns true iff busy with that transaction id; a refused request changes nothing; sender: "
              "exactly one EOF(Cancel Request Received) with size = progress and the filestore checksum of that prefix, then EOF-ACK wait "
